@@ -14,7 +14,7 @@ SIZES = {
     "xml": (250, 3000),
     "neareq": (1500, 15000),
     "msetdup": (200, 2500),
-    "huge": (12, 60),
+    "huge": (18, 60),
     "csv": (200, 2500),
     "pyobj": (200, 2500),
     "plist": (150, 2000),
@@ -22,8 +22,10 @@ SIZES = {
     "records": (200, 2500),
     "mixedkeys": (250, 3000),
     "crossplist": (80, 800),
+    "wide": (16, 200),
+    "mixedopts": (250, 3000),
 }
-DEFAULT_KINDS = ["small", "random", "skewed", "mset", "msetdup", "xml", "huge", "csv", "pyobj", "plist", "loaded", "records", "mixedkeys"]
+DEFAULT_KINDS = ["small", "random", "skewed", "mset", "msetdup", "xml", "huge", "csv", "pyobj", "plist", "loaded", "records", "mixedkeys", "wide"]
 
 
 def innermost_class(ev, step):
